@@ -13,6 +13,7 @@ import types
 import z3
 
 from segvc.core import BOOL, CLASSES, INT, OPTINT, ArrT, DequeT, H, RefT, Sym, register_class
+from segvc.interp import Builtin
 from segvc.lib import CANCELLED, EXC, PENDING, RESULT
 from segvc.unit import Case, ClassSpec, Contract, LemmaUnit, LoopSpec, MethodUnit
 
@@ -399,6 +400,22 @@ class MaxValueUnit(SemUnit):
     )
 
 
+class StatisticsUnit(SemUnit):
+    """`Semaphore.statistics()`: the one reported number is the length of the waiter queue, nothing is changed"""
+
+    method = "statistics"
+    contract = None
+    globals = {"SemaphoreStatistics": Builtin("SemaphoreStatistics", lambda ip, *a: tuple(a))}
+
+    def on_exit(self, ip, pre, a, exc, ret):
+        ok = exc is None and isinstance(ret, tuple) and len(ret) == 1
+        ip.ctx.oblige("Semaphore.statistics/post:returns_one_number", z3.BoolVal(ok), "post")
+        if ok:
+            q = queue(pre, a.self)
+            ip.ctx.oblige("Semaphore.statistics/post:reports_the_true_waiter_count", ip.term(ret[0], INT) == q.hi - q.lo, "post")
+            ip.ctx.oblige("Semaphore.statistics/post:pure", fields_unchanged(pre, H(ip.st), a.self), "post")
+
+
 class EnvCancelFuture(LemmaUnit):
     props = ("C10",)
     name = "Semaphore/env:cancel_pending_waiter_future"
@@ -420,4 +437,4 @@ class EnvCancelFuture(LemmaUnit):
         ip.ctx.oblige(f"{self.name}/env:permits_unchanged", permits(h2, s) == permits(h, s), "env")
 
 
-UNITS = [InitUnit, AcquireUnit, ReleaseUnit, AcquireNowaitUnit, ValueUnit, MaxValueUnit, EnvCancelFuture]
+UNITS = [InitUnit, AcquireUnit, ReleaseUnit, AcquireNowaitUnit, ValueUnit, MaxValueUnit, StatisticsUnit, EnvCancelFuture]
